@@ -231,7 +231,7 @@ func main() {
 		n := 0
 		g := &Gen{Tier: *tier, Seed: *seed, R: NewRand(uint64(*seed)*0x9E3779B97F4A7C15 + hashString(*suite)), Counters: map[string]int{}}
 		var child *childExec
-		if s.Isolated && os.Getenv("VERIF_NO_ISOLATE") == "" {
+		if os.Getenv("VERIF_NO_ISOLATE") == "" { // every suite is isolated: a hang or crash anywhere must not take the check down
 			child = &childExec{}
 			defer child.stop()
 		}
